@@ -104,9 +104,10 @@ def build_harness(scratch, race=False):
     """go build of the harness against the CURRENT working tree of the repository, hooks enabled."""
     hd = os.path.join(scratch, "harness")
     os.makedirs(hd)
-    for f in os.listdir(os.path.join(VERIF, "harness")):
+    src = os.environ.get("VERIF_HARNESS", os.path.join(VERIF, "harness"))   # development override only
+    for f in os.listdir(src):
         if f.endswith(".go"):
-            shutil.copy(os.path.join(VERIF, "harness", f), hd)
+            shutil.copy(os.path.join(src, f), hd)
     with open(os.path.join(hd, "go.mod"), "w") as f:
         f.write("module xvh\n\ngo 1.20\n\nrequire github.com/ChrisTrenkamp/xsel v0.0.0\n\nreplace github.com/ChrisTrenkamp/xsel => %s\n" % REPO)
     shutil.copy(os.path.join(REPO, "go.sum"), hd)
